@@ -49,6 +49,7 @@ def sub_instances():
                                      (5, 0, b'jwt.jwt.jwt', b''), (255, 255, b'x', b'y'))] + \
                  [{'t': 0x58, 'res': 1, 'idtype': 2, 'resp': 0, 'primary': b'a', 'secondary': b'b'}]
     K['UID59'] = [{'t': 0x59, 'res': 0, 'response': bytes((65 + i % 26) for i in range(n))} for n in (5, 0, 1, 2, 300)] + \
+                 [{'t': 0x59, 'res': 0, 'response': '<saml:Réponse who="Zoë €"/>'.encode('utf8')}] + \
                  [{'t': 0x59, 'res': 2, 'response': b'ok'}]
     K['GEN'] = [{'t': t, 'res': 0, 'data': d}
                 for t, d in ((0x57, b'\x00\x03abc'), (0x57, b''), (0x5A, b'\x01'), (0xFF, b'zz'),
@@ -178,6 +179,10 @@ def trees(tier):
             yield 'items-canon-%d' % npc, assoc(p, [app()] + pcs + [big_ui])
             yield 'items-ui-first-%d' % npc, assoc(p, [big_ui, app()] + pcs)
             yield 'items-ui-mid-%d' % npc, assoc(p, [app()] + pcs[:1] + [big_ui] + pcs[1:])
+        # an empty user information item in every position of a longer list
+        for combo in ('EAP', 'AEP', 'APE', 'EU', 'UE', 'EE', 'EPU'):
+            alpha2 = dict(alpha, E=ui([]))
+            yield 'items-emptyui-' + combo, assoc(p, [dict(alpha2[c]) for c in combo])
     # 4. presentation contexts
     abs_lens = (17, 0, 1, 2, 63, 64)
     ts_sets = ((), (IMPLICIT,), (EXPLICIT, IMPLICIT), (IMPLICIT, EXPLICIT, BIGEND), (uid_of_len(64), uid_of_len(1, 2), ''))
@@ -319,7 +324,7 @@ def sub_from_tree(s):
         return D.UserIdentityNegotiationSubItem(s['primary'].decode('utf8'), s['secondary'].decode('utf8'),
                                                 s['idtype'], s['resp'], s['res'])
     if t == 0x59:
-        return D.UserIdentityNegotiationSubItemAc(s['response'].decode('ascii'), s['res'])
+        return D.UserIdentityNegotiationSubItemAc(s['response'].decode('utf8'), s['res'])
     return D.GenericUserDataSubItem(t, s['data'], s['res'])
 
 
@@ -383,7 +388,7 @@ def sub_to_tree(s):
         return {'t': 0x58, 'res': s.reserved, 'idtype': s.user_identity_type, 'resp': s.positive_response_req,
                 'primary': s.primary_field.encode('utf8'), 'secondary': s.secondary_field.encode('utf8')}
     if n == 'UserIdentityNegotiationSubItemAc':
-        return {'t': 0x59, 'res': s.reserved, 'response': s.server_response.encode('latin-1')
+        return {'t': 0x59, 'res': s.reserved, 'response': s.server_response.encode('utf8', 'surrogateescape')
                 if isinstance(s.server_response, str) else s.server_response}
     if n == 'GenericUserDataSubItem':
         return {'t': s.item_type, 'res': s.reserved, 'data': s.user_data}
